@@ -7,4 +7,5 @@ func registerStreams(m map[string]Stream) {
 	m["sid"] = sidStream{}
 	m["newentry"] = newEntryStream{}
 	m["resp"] = respStream{}
+	m["mux"] = muxStream{}
 }
